@@ -7,6 +7,7 @@ ADDRS = ['tz1VSUr8wwNhLAzempoch5d6hLRiTh8Cjcjb', 'KT1BEqzn5Wx8uJrZNvuS9DVHmLvG9t
          'tz2TSvNTh2epDMhZHrw73nV9piBX7kLZ9K9m', 'KT18amZmM5W7qDWVt2pH6uj7sCEd3kbzLrHT']
 CHAINS = ['NetXdQprcVkpaWU', 'NetXynUjJNZm7wi', 'NetXSgo1ZT2DRUG']
 SIMPLE = [('unit',), ('bool',), ('int',), ('nat',), ('mutez',), ('timestamp',), ('string',), ('bytes',), ('address',), ('chain_id',)]
+HASH_PRIMS = ['BLAKE2B', 'SHA256', 'SHA512', 'KECCAK', 'SHA3']
 SET_ELT = [('int',), ('nat',), ('string',), ('bytes',), ('bool',), ('mutez',), ('timestamp',)]
 COMPARABLE = [('int',), ('nat',), ('string',), ('bytes',), ('bool',), ('mutez',), ('timestamp',)]
 
@@ -286,7 +287,8 @@ class Gen:
         add(1, 'NONE', lambda: self._typed1(st, 'NONE', lambda t: ('option', t)))
         add(1, 'NIL', lambda: self._typed1(st, 'NIL', lambda t: ('list', t)))
         add(1, 'EMPTY_MAP', lambda: self._empty_map(st))
-        add(1, 'ENV', lambda: self._env(st))
+        add(1.5, 'ENV', lambda: self._env(st))
+        add(2, 'HASH', lambda: self._hash_idiom(st))
         add(2, 'COMB', lambda: self._comb_idiom(st))
         add(3, 'ARITH', lambda: self._arith_idiom(st))
         add(4, 'COLL', lambda: self._coll_idiom(st, depth))
@@ -298,6 +300,11 @@ class Gen:
             add(2, 'DROP', lambda: ([{'prim': 'DROP'}], st[1:]))
             add(3, 'DUP', lambda: ([{'prim': 'DUP'}], [top] + st))
             add(2, 'SOME', lambda: ([{'prim': 'SOME'}], [('option', top)] + st[1:]))
+            add(0.7, 'RENAME', lambda: ([{'prim': 'RENAME'}], st))
+            add(0.7, 'CAST', lambda: ([{'prim': 'CAST', 'args': [ty_mich(top)]}], st))
+            if top[0] == 'bytes':
+                hp = r.choice(HASH_PRIMS)
+                add(5, 'HASH', lambda: ([{'prim': hp}], st))
             add(1, 'LEFT', lambda: self._lr(st, 'LEFT'))
             add(1, 'RIGHT', lambda: self._lr(st, 'RIGHT'))
             if depth > 0:
@@ -392,9 +399,9 @@ class Gen:
             if top == snd and top[0] in ('string', 'bytes'):
                 add(4, 'CONCAT', lambda: ([{'prim': 'CONCAT'}], st[1:]))
             if snd[0] == 'lambda' and snd[1] == top:
-                add(8, 'EXEC', lambda: ([{'prim': 'EXEC'}], [snd[2]] + st[2:]))
+                add(14, 'EXEC', lambda: ([{'prim': 'EXEC'}], [snd[2]] + st[2:]))
             if snd[0] == 'lambda' and snd[1][0] == 'pair' and snd[1][1] == top and top[0] != 'lambda':
-                add(8, 'APPLY', lambda: ([{'prim': 'APPLY'}], [('lambda', snd[1][2], snd[2])] + st[2:]))
+                add(14, 'APPLY', lambda: ([{'prim': 'APPLY'}], [('lambda', snd[1][2], snd[2])] + st[2:]))
         if depth > 0:
             add(2, 'LOOP', lambda: self._loop(st, depth))
         total = sum(w for w, _, _ in cands)
@@ -603,11 +610,23 @@ class Gen:
             return code + arg + [P('UPDATE'), P('DUP'), pk, P('GET')], [('option', vt), ct] + st
         return code + arg + [P('UPDATE')], new
 
+    def _hash_idiom(self, st):
+        """hash a pushed byte string (lengths around the block sizes of the five functions), sometimes twice"""
+        r = self.rng
+        n = r.choice([0, 0, 1, 5, 31, 32, 55, 56, 63, 64, 65, 111, 112, 127, 128, 129, 135, 136, 137, 200])
+        self.shape(f'hash input of {n if n in (0, 1) else ("<64" if n < 64 else ("<128" if n < 128 else "128+"))} bytes')
+        code = [{'prim': 'PUSH', 'args': [{'prim': 'bytes'}, {'bytes': r.bytes_(n).hex()}]}]
+        for _ in range(r.choice([1, 1, 2])):
+            hp = r.choice(HASH_PRIMS)
+            self.note(hp)
+            code.append({'prim': hp})
+        return code, [('bytes',)] + st
+
     # ---- arithmetic: operands pushed on purpose so that every operand class and edge is reached --------------
     def _arith_idiom(self, st):
         r = self.rng
         P = lambda prim: {'prim': prim}
-        kind = r.choice(['EDIV', 'EDIV', 'EDIV', 'LSL', 'LSR', 'AND', 'OR', 'XOR', 'ANDI', 'SUB_MUTEZ', 'NOT', 'ADD', 'SUB', 'MUL', 'BOOL', 'CMP'])
+        kind = r.choice(['EDIV', 'EDIV', 'EDIV', 'LSL', 'LSR', 'AND', 'OR', 'XOR', 'ANDI', 'SUB_MUTEZ', 'NOT', 'ADD', 'SUB', 'MUL', 'BOOL', 'CMP', 'CMP', 'CMP', 'CONS', 'CONCAT'])
         self.note(kind if kind not in ('ANDI',) else 'AND')
 
         def num(t, **kw):
@@ -659,6 +678,14 @@ class Gen:
         if kind == 'BOOL':
             op = r.choice(['AND', 'OR', 'XOR'])
             return two('bool', self.gen_value(('bool',)), 'bool', self.gen_value(('bool',)), op, ('bool',))
+        if kind == 'CONS':
+            t = self.gen_type(1)
+            return [self.push(('list', t)), self.push(t), P('CONS')], [('list', t)] + st
+        if kind == 'CONCAT':
+            t = r.choice([('string',), ('bytes',)])
+            if r.random() < 0.5:
+                return [self.push(('list', t)), P('CONCAT')], [t] + st
+            return [self.push(t), self.push(t), P('CONCAT')], [t] + st
         if kind == 'CMP':
             t = r.choice(COMPARABLE)
             va = self.gen_value(t)
@@ -684,7 +711,8 @@ class Gen:
 
     def _env(self, st):
         prim, t = self.rng.choice([('AMOUNT', ('mutez',)), ('BALANCE', ('mutez',)), ('SENDER', ('address',)), ('SOURCE', ('address',)),
-                                   ('NOW', ('timestamp',)), ('LEVEL', ('nat',)), ('CHAIN_ID', ('chain_id',)), ('SELF_ADDRESS', ('address',))])
+                                   ('NOW', ('timestamp',)), ('LEVEL', ('nat',)), ('CHAIN_ID', ('chain_id',)), ('SELF_ADDRESS', ('address',)),
+                                   ('TOTAL_VOTING_POWER', ('nat',)), ('MIN_BLOCK_TIME', ('nat',))])
         return [{'prim': prim}], [t] + st
 
     def _lambda(self, st, depth):
@@ -697,9 +725,17 @@ class Gen:
         if st and a == st[0]:
             code.append({'prim': 'SWAP'})
             new = [st[0], ('lambda', a, b)] + st[1:]
+            if self.rng.random() < 0.4:
+                self.note('EXEC')
+                code.append({'prim': 'EXEC'})
+                new = [b] + st[1:]
         elif st and a[0] == 'pair' and a[1] == st[0] and st[0][0] != 'lambda':
             code.append({'prim': 'SWAP'})
             new = [st[0], ('lambda', a, b)] + st[1:]
+            if self.rng.random() < 0.6:
+                self.note('APPLY')
+                code.append({'prim': 'APPLY'})
+                new = [('lambda', a[2], b)] + st[1:]
         return code, new
 
     def _lr(self, st, prim):
